@@ -38,9 +38,7 @@ func (f *clientHeartBeatProcessor) Process(ctx context.Context, rpcMessage messa
 			log.Debug("received PONG from {}", ctx)
 		}
 	}
-	msgFuture := getty.GetGettyRemotingClient().GetMessageFuture(rpcMessage.ID)
-	if msgFuture != nil {
-		getty.GetGettyRemotingClient().RemoveMessageFuture(rpcMessage.ID)
-	}
+	// heart-beats are sent without a pending future and numbered by the handler's own counter: a future
+	// found under this id belongs to a request that happens to carry the same number and must stay
 	return nil
 }
